@@ -59,6 +59,9 @@ func init() {
 	props["C12"] = propInfo{Engine: "stepsim", Level: "exploration", Rule: "one run = a generated DAG of 1-3 steps with a subset of {stdout file, stderr file, output variable}, retries 0-2, scripted byte patterns on stdout/stderr (sizes around 4 KiB / 64 KiB boundaries, seeded chunking, interleaving), exec-style children (bytes through os/exec-like pipes and copy goroutines) or a direct-write executor; files are compared byte-exactly after the run. distinct = distinct schedule signature; non-trivial = some step printed at least one byte", MustProbes: []string{"cfg_retry+stdout", "cfg_stderr+direct", "cfg_plain"}, QuickS: 20, ThoroughS: 600}
 	props["C06"] = propInfo{Engine: "histsim", Level: "exploration", Rule: "one run = a generated sequence of 3-20 (thorough 3-42) operations (start/write/close-with-compaction/update/rename/remove-old/remove-all/sleep) over 2-3 DAG names drawn from a grammar with spaces, dots, glob metacharacters, shared prefixes, the compaction suffix and timestamp look-alikes, run against the real jsondb store on the simulated disk and fake clock (starts in the same second/minute, either side of midnight, days apart; status lines up to 140 KB); after every operation lookup-by-id, latest and recent(1,3,100) for every DAG are compared with HistoryModel through a long-lived cached instance and a fresh one. distinct = distinct schedule signature; non-trivial = at least two runs were recorded", QuickS: 20, ThoroughS: 600}
 	props["C07"] = propInfo{Engine: "histsim", Level: "fault_enumeration", Rule: "one scenario = a small prior history plus one victim operation (a whole run with compaction, an update, a rename or a retention clean-up); pass 1 counts the victim's simulated system calls, then the same scenario is re-run once per crash point: kill before / after the k-th system call, or inside a write with a torn prefix of 0, 1, half or all-but-one byte (quick: 6 seeded points per scenario; thorough: every point). After the kill the surviving disk is queried through a cached and a fresh store instance. A quarter of the scenarios instead run a concurrent reader against the un-killed victim. evaluations = simulated runs (fault-free pass + crash passes); distinct = distinct schedule signature of scenarios in which a crash landed", MustProbes: []string{"crash_landed", "concurrent_query_rounds"}, QuickS: 20, ThoroughS: 600}
+	props["C08"] = propInfo{Engine: "agentsim", Level: "exploration", Rule: fmt.Sprintf("one run = a generated DAG executed through the real CLI closures (cmd start/retry/stop) as simulated processes over the simulated disk, sockets and process table, with scripted step children; %s. distinct = distinct schedule signature; non-trivial = %s", "an observer process polls the real client (GetLatestStatus/GetCurrentStatus) at seeded instants during and after the run and every answer is checked against the ground-truth step intervals (invoke/return stamps); in half of the runs the agent is killed before/after a seeded system call and afterwards the status, a new start and the daemon's start guard are checked", "at least one command executed and at least two observations were made"), MustProbes: []string{"observed_while_listening", "observed_after_exit", "killed_with_steps_pending", "restart_after_crash", "daemon_guard_after_crash"}, QuickS: 20, ThoroughS: 600}
+	props["C16"] = propInfo{Engine: "agentsim", Level: "exploration", Rule: fmt.Sprintf("one run = a generated DAG executed through the real CLI closures (cmd start/retry/stop) as simulated processes over the simulated disk, sockets and process table, with scripted step children; %s. distinct = distinct schedule signature; non-trivial = %s", "two (thorough: up to three) starts of the same file, the second released at a seeded scheduler step of the first's life or at the same moment; execution spans of the starts must not overlap, a refused start exits non-zero without executing or recording anything, the active run's endpoint keeps answering with its own request id", "the lifetimes of two start processes overlapped"), MustProbes: []string{"starts_overlapped", "start_refused", "survivor_probed", "probe_bind_window_hit"}, QuickS: 20, ThoroughS: 600}
+	props["C10"] = propInfo{Engine: "agentsim", Level: "exploration", Rule: fmt.Sprintf("one run = a generated DAG executed through the real CLI closures (cmd start/retry/stop) as simulated processes over the simulated disk, sockets and process table, with scripted step children; %s. distinct = distinct schedule signature; non-trivial = %s", "a first run ended naturally, by `stop` at a seeded step, or by a kill at a seeded system call (leaving running / not-started nodes recorded), optionally the definition is edited, then `retry --req=<id>` runs as a new process under fresh outcome scripts; kept steps must not execute and must be copied unchanged, unfinished steps and everything downstream re-run in dependency order, the retry terminates and is a new record", "a retry process ran"), MustProbes: []string{"first_run_killed", "recorded_running_node", "recorded_not_started_node", "step_in_retry_set"}, QuickS: 20, ThoroughS: 600}
 	props["C15"] = propInfo{Engine: "stepsim", Level: "exploration", Rule: fmt.Sprintf(stepRule, "at least two step commands overlapped in time"), MustProbes: []string{"limit_reached", "unlimited_overlap"}, QuickS: 20, ThoroughS: 600}
 }
 
@@ -502,6 +505,12 @@ func check(prop, tier string) {
 		sort.Slice(recs, func(i, j int) bool { return len(recs[i].Tape[0])+len(recs[i].Tape[1]) < len(recs[j].Tape[0])+len(recs[j].Tape[1]) })
 		rec := recs[0]
 		nReplay++
+		if nReplay > 10 {
+			// report the remaining signatures in one line each; the exit status is 1 already
+			newViol = append(newViol, "")
+			fmt.Printf("VIOLATION property=%s replay=- (not minimised: more than 10 distinct signatures) signature=%s (x%d)\n", prop, sig, merged.ViolCounts[sig])
+			continue
+		}
 		if nReplay > 6 {
 			// still a violation, reported with its unminimised tape
 			rp := writeReplay(prop, tier, key, seed, rec)
